@@ -32,6 +32,9 @@ def valid_axiom_catalogue(rng, k):
         T.imp(T.ssub(T.mv(0, pos=(X,)), X, T.mu(X, T.mv(0, pos=(X,)))), T.mu(X, T.mv(0, pos=(X,)))),  # pre-fixpoint
         T.imp(T.esub(T.mv(0, holes=(x,)), x, T.BOT), T.BOT),       # C[bot] -> bot, C an application context
         T.ex(x, T.evar(x)),
+        T.imp(T.mv(0, sf=(X,), pos=(X,)), T.mu(X, T.mv(0, sf=(X,), pos=(X,)))),       # X fresh in A: mu X . A is A
+        T.imp(T.mu(X, T.mv(0, sf=(X,), pos=(X,))), T.mv(0, sf=(X,), pos=(X,))),
+        T.imp(T.ex(x, T.mv(0, ef=(x,), sf=(X,))), T.mv(0, ef=(x,), sf=(X,))),
     ]
     return cat
 
@@ -51,7 +54,7 @@ class StreamGen:
             'axiom': rng.choice([1, 2, 4]), 'pattern': rng.choice([1, 2]), 'inst': rng.choice([2, 4, 6]),
             'mp': rng.choice([2, 4, 6]), 'gen': rng.choice([0, 1, 3]), 'subst': rng.choice([0, 1, 3]),
             'save': rng.choice([1, 2]), 'load': rng.choice([1, 2]), 'pop': rng.choice([0, 1]),
-            'publish': rng.choice([0, 1, 2]), 'junk': rng.choice([0, 0, 1]), 'capture': rng.choice([0, 1, 2]), 'muprobe': rng.choice([0, 1, 2]), 'freshprobe': rng.choice([0, 1, 2]), 'quantprobe': rng.choice([0, 1, 2]),
+            'publish': rng.choice([0, 1, 2]), 'junk': rng.choice([0, 0, 1]), 'capture': rng.choice([0, 1, 2]), 'muprobe': rng.choice([0, 1, 2]), 'freshprobe': rng.choice([0, 1, 2]), 'quantprobe': rng.choice([0, 1, 2]), 'consprobe': rng.choice([0, 1, 2, 3]),
         }
         self.p_bad = rng.choice([0.0, 0.05, 0.15])    # adversarial (inapplicable) choices
 
@@ -316,6 +319,38 @@ class StreamGen:
             # make the freshly accepted mu pattern part of a theorem: prop1[phi0 := mu X. body]
             self.put(bytes([OP['Prop1'], OP['Instantiate'], 1, 0]))
 
+    def op_constraint_probe(self):
+        """Instantiate a constrained metavariable of a saved theorem / axiom with a plug chosen on the
+        boundary of the constraint (variables with the same number in the other sort, binders that
+        shadow or do not shadow, both polarities), whether or not the reference judgement admits it."""
+        rng = self.rng
+        cands = []
+        for i in self.proved_slots():
+            for m in T.metavars(self.m.memory[i][1]):
+                if any(m[2:7]):
+                    cands.append((i, m))
+        if not cands:
+            return
+        i, m = rng.choice(cands)
+        fam = [T.sym(0), T.BOT]
+        for x in m[2]:      # e_fresh
+            fam += [T.evar(x), T.ex(x, T.evar(x)), T.mu(x % 250, T.evar(x)), T.ex((x + 1) % 250, T.evar(x)), T.app(T.sym(0), T.evar(x)), T.svar(x)]
+        for X in m[3]:      # s_fresh
+            fam += [T.svar(X), T.mu(X, T.svar(X)), T.ex(X, T.svar(X)), T.mu((X + 1) % 250, T.svar(X)), T.app(T.svar(X), T.sym(0)), T.evar(X)]
+        for X in m[4]:      # positive
+            fam += [T.svar(X), T.neg(T.svar(X)), T.neg(T.neg(T.svar(X))), T.mu(X, T.neg(T.svar(X))) if False else T.app(T.svar(X), T.neg(T.svar(X))), T.imp(T.svar(X), T.svar(X))]
+        for X in m[5]:      # negative
+            fam += [T.svar(X), T.neg(T.svar(X)), T.imp(T.svar(X), T.sym(0)), T.app(T.neg(T.svar(X)), T.sym(0))]
+        for x in m[6]:      # application context
+            fam += [T.evar(x), T.app(T.evar(x), T.sym(0)), T.app(T.evar(x), T.evar(x)), T.imp(T.evar(x), T.BOT), T.app(T.sym(0), T.app(T.evar(x), T.sym(1)))]
+        p = rng.choice(fam)
+        if not T.wf_deep(p):
+            return
+        self.put_pattern(p)
+        self.put(bytes([OP['Load'], i, OP['Instantiate'], 1, m[1]]))
+        if not self.dead and rng.random() < 0.5 and len(self.m.memory) < 250:
+            self.put(bytes([OP['Save']]))
+
     def op_quantifier_probe(self):
         """Quantifier instantiated with plugs that bind / shadow / mention x0 and x1 (the variables the
         axiom's own pending substitution talks about)."""
@@ -382,6 +417,8 @@ class StreamGen:
                 self.op_fresh_probe()
             elif op == 'quantprobe':
                 self.op_quantifier_probe()
+            elif op == 'consprobe':
+                self.op_constraint_probe()
             elif op == 'junk':
                 self.put(bytes([rng.choice([0, 1, 16, 17, 18, 20, 23, 25, 31, 99, 136, 138, 255])]))
             if not self.dead and self.m.stack and self.m.stack[-1][0] == 'T':
